@@ -377,7 +377,12 @@ Definition nominal_cls (b : bval) : cls :=
   | _ => CObject
   end.
 
-(* ConstraintType.is_instance (assert_is_instance): real isinstance / issubclass, no promotion *)
+(* stacked_scopes._is_promotable_to (C02 repair): instances of c belong to t through the implicit
+   int -> float -> complex promotion *)
+Definition promotable (c t : cls) : bool := (cls_eqb t CFloat || cls_eqb t CComplex) && sub_art c t.
+
+(* ConstraintType.is_instance (assert_is_instance): real isinstance / issubclass; since the C02
+   repair the positive branch also accepts a class that is promoted to the declared one *)
 Definition apply_isinstance (c : cls) (positive : bool) (s : sval) : list sval :=
   match sbase s with
   | VAny => if positive then [plain (VTyped c)] else [plain VAny]
@@ -385,7 +390,7 @@ Definition apply_isinstance (c : cls) (positive : bool) (s : sval) : list sval :
   | VSub t => if Bool.eqb (isinst (OClass t) c) positive then [s] else []
   | b =>
       let t := nominal_cls b in
-      if positive then (if sub t c then [s] else if sub c t then [plain (VTyped c)] else [])
+      if positive then (if sub t c then [s] else if sub c t || promotable c t then [plain (VTyped c)] else [])
       else (if sub t c then [] else [s])
   end.
 
@@ -396,10 +401,10 @@ Definition apply_isvalue (l : obj) (positive : bool) (s : sval) : list sval :=
     | VAny => [plain (VKnown l)]
     | VKnown o => if obj_eqb o l then [s] else []
     | VSub t => match l with
-                | OClass k => if sub k t then [plain (VKnown l)] else []
+                | OClass k => if sub k t || promotable k t then [plain (VKnown l)] else []
                 | _ => []
                 end
-    | b => if isinst l (nominal_cls b) then [plain (VKnown l)] else []
+    | b => if isinst l (nominal_cls b) || promotable (class_of l) (nominal_cls b) then [plain (VKnown l)] else []
     end
   else
     match sbase s with
